@@ -77,8 +77,14 @@ func diffStrings(a, b []string) string {
 func runFED08(r *core.Run) {
 	const prop = "C08"
 	W := r.W
+	saved := fedBias
+	if W.Prob(0.5) {
+		// half of the runs: at least three subgraphs and twice as many @requires edges
+		fedBias.minSub, fedBias.requires = 3, 0.6
+	}
 	e := newFedEnvA(r, true, fedAbstractMode(r))
-	o := fedEngineOpts{multiFetch: W.Prob(0.5), scheduleFetches: W.Prob(0.5)}
+	fedBias = saved
+	o := fedEngineOpts{multiFetch: W.Prob(0.6), scheduleFetches: W.Prob(0.6)}
 	ctx, cancel := context.WithCancel(context.Background())
 	defer cancel()
 	op := genFedOp(e.spec, W, false, false)
